@@ -35,10 +35,11 @@ const (
 	Garbage       // block bytes that do not decode as an IPLD node
 	Hang          // never completes; returns ctx.Err() once the context ends
 	Replace       // serve ReplaceWith[cid] instead of the stored bytes
+	CtxError      // an error of the block service's OWN making that wraps context.Canceled / DeadlineExceeded (an internal deadline), while the caller's context is alive
 )
 
 func (f Fault) String() string {
-	return [...]string{"ok", "absent", "error", "garbage", "hang", "replace"}[f]
+	return [...]string{"ok", "absent", "error", "garbage", "hang", "replace", "ctx-error"}[f]
 }
 
 // Event is one record of the store's log.
@@ -427,6 +428,12 @@ func (d *dagSvc) Get(ctx context.Context, c cid.Cid) (format.Node, error) {
 	case Error:
 		fin("error")
 		return nil, ErrInjected
+	case CtxError:
+		fin("ctx-error")
+		if c.Bytes()[len(c.Bytes())-1]%2 == 0 {
+			return nil, fmt.Errorf("block service: internal lookup gave up: %w", context.Canceled)
+		}
+		return nil, fmt.Errorf("block service: internal lookup gave up: %w", context.DeadlineExceeded)
 	case Hang:
 		<-ctx.Done()
 		fin("hang-ctx")
